@@ -418,6 +418,7 @@ def _all_or_nothing(method):
 class Pickled(OpcodeSequence):
     def __init__(self, opcodes: Iterable[Opcode]):
         self._opcodes: List[Opcode] = list(opcodes)
+        self._frames: Optional[int] = None  # number of FRAME opcodes, counted when first needed
         self._ast: Optional[ast.Module] = None
         self._properties: Optional[ASTProperties] = None
 
@@ -432,22 +433,31 @@ class Pickled(OpcodeSequence):
 
     def _enclosing_frame(self, index: int) -> Optional["Frame"]:
         """The FRAME whose announced byte range an opcode inserted at `index` would fall into"""
+        if self._frames is None:
+            self._frames = sum(1 for opcode in self._opcodes if isinstance(opcode, Frame))
+        if not self._frames:
+            return None
         if index < 0:
             index = max(0, len(self._opcodes) + index)
-        frame: Optional[Frame] = None
-        remaining = 0
-        for opcode in self._opcodes[:index]:
-            if isinstance(opcode, Frame):
-                frame, remaining = opcode, opcode.arg
-            elif frame is not None:
-                remaining -= len(opcode.data)
-                if remaining <= 0:
-                    frame = None
+        index = min(index, len(self._opcodes))
+        start = index - 1
+        while start >= 0 and not isinstance(self._opcodes[start], Frame):
+            start -= 1
+        if start < 0:
+            return None
+        frame = self._opcodes[start]
+        remaining = frame.arg
+        for opcode in self._opcodes[start + 1 : index]:
+            remaining -= len(opcode.data)
+            if remaining <= 0:
+                return None
         return frame
 
     def insert(self, index: int, opcode: Opcode):
         frame = None if isinstance(opcode, Frame) else self._enclosing_frame(index)
         self._opcodes.insert(index, opcode)
+        if isinstance(opcode, Frame):
+            self._frames = None
         if frame is not None:
             # a FRAME announces how many bytes of opcodes it wraps: an unpickler reading from a stream
             # refuses (or mis-reads) opcodes that straddle the announced end of a frame
@@ -723,11 +733,13 @@ class Pickled(OpcodeSequence):
 
     def __setitem__(self, index: Union[int, slice], item: Union[Opcode, Iterable[Opcode]]):
         self._opcodes[index] = item
+        self._frames = None
         self._ast = None
         self._properties = None
 
     def __delitem__(self, index: int):
         del self._opcodes[index]
+        self._frames = None
         self._ast = None
         self._properties = None
 
